@@ -7,3 +7,4 @@ open Bec2Verif.Props.C02
 #print axioms bec2_read_write_plain
 #print axioms adapter_instance
 #print axioms bec2_read_write_aes
+#print axioms bec2_read_write_shipped
